@@ -336,21 +336,24 @@ def execute(cases, binary, workdir, tag="dev", jobs=8):
 
 
 def parse_mon(mon):
-    """'mon impl=a b ; model=c' -> (impl fails, model fails) as lists of (prop, step, clause)"""
-    impl, model = [], []
+    """'mon impl=a b ; model=c ; diff=C01@3' -> (impl fails, model fails, {prop: first differing observation index})"""
+    impl, model, diff = [], [], {}
     if not mon.startswith("mon "):
-        return impl, model
-    body = mon[4:]
-    a, _, b = body.partition(" ; ")
+        return impl, model, diff
+    parts = [x.strip() for x in mon[4:].split(" ; ")]
     def toks(s, key):
-        s = s.strip()
         assert s.startswith(key + "="), s
         out = []
         for t in s[len(key) + 1:].split():
             p, st, cl = t.split(":", 2)
             out.append((p, int(st), cl))
         return out
-    return toks(a, "impl"), toks(b, "model")
+    impl, model = toks(parts[0], "impl"), toks(parts[1], "model")
+    if len(parts) > 2 and parts[2].startswith("diff="):
+        for t in parts[2][5:].split():
+            p, _, i = t.partition("@")
+            diff[p] = int(i)
+    return impl, model, diff
 
 
 # ---------------------------------------------------------------- projections for the correspondence
